@@ -2,7 +2,7 @@
    the defect flag cg_x0_unscaled, and a concrete instance showing that the hypotheses of the optimality theorem
    are satisfiable. *)
 From Coq Require Import List Bool Arith Lia ZArith QArith Qcanon Ring Field.
-From Core Require Import C12_Ops C12_Model C12_Contract C12_Krylov C12_Run.
+From Core Require Import C12_Ops C12_Model C12_Contract C12_Krylov C12_Run C12_Homog.
 Import ListNotations.
 Local Close Scope Qc_scope. Local Close Scope Q_scope.
 
@@ -110,4 +110,31 @@ Proof.
     + fold r in Hk. exact Hk.
     + intros c. fold r in Hopt. rewrite Hsteps in Hopt. fold c0 in Hopt.
       apply (Hopt (fun q => (0 <= q)%Qc)). exact A2_nonneg.
+Qed.
+
+(* ---------------------------------------------------------------- the hypotheses of cg_homogeneous are satisfiable:
+   the same 2x2 rational instance, alpha = -2 (|alpha| = 2, phase -1), b = (3,4), x0 = 0 *)
+Ltac qc_eq := apply Qc_is_canon; vm_compute; reflexivity.
+Example cg_homogeneous_instance :
+  let b : V2 := (qz 3, qz 4) in let x0 : V2 := (qz 0, qz 0) in
+  let r := run_cg QcOps v2ops A2 P2 false wtol 2 [b] [x0] in
+  let r' := run_cg QcOps v2ops A2 P2 false wtol 2 (map (vscale v2ops (qz (-2))) [b]) [x0] in
+  sol r' = map (vscale v2ops (qz (-2))) (sol r) /\ steps r' = steps r /\ iterations r' = iterations r /\ errors r' = errors r.
+Proof.
+  intros b x0.
+  refine (cg_homogeneous QcOps v2ops Qc_field_div A2 P2 _ _ _ _ _ _ _ (qz (-1)) _ (qz (-2)) (qz 2) _ _ false wtol 2 [b] [x0] _).
+  - intros u [a1 a2] [b1 b2]. cbn. f_equal; ring.
+  - intros u [a1 a2] [b1 b2]. cbn. f_equal; ring.
+  - intros a c [v1 v2]. cbn. f_equal; ring.
+  - intros [v1 v2] c. cbn. unfold Qcdiv. f_equal; ring.
+  - intros u [v1 v2]. unfold A2. cbn. f_equal; ring.
+  - intros u v. reflexivity.
+  - intros u [a1 a2] [b1 b2]. cbn. ring.
+  - qc_eq.
+  - intro H. apply (f_equal this) in H. vm_compute in H. discriminate.
+  - qc_eq.
+  - intros b' x' [E|[]]. inversion E; subst. split; [qc_eq|]. split.
+    { intro H. apply (f_equal this) in H. vm_compute in H. discriminate. }
+    split; [qc_eq|]. split; [qc_eq|]. intros c. unfold x0. replace (qz 0) with 0%Qc by qc_eq.
+    change (((c * 0)%Qc, (c * 0)%Qc) = (0%Qc, 0%Qc)). f_equal; ring.
 Qed.
